@@ -25,11 +25,15 @@ pub fn find_first_excess_utxo(utxos: &HashSet<Utxo>, target: &CanonicalAssets) -
         return None;
     }
 
+    // amounts come from arguments and from the store: an overflow means there is nothing sensible
+    // to trim
     let available = utxos
         .iter()
-        .fold(CanonicalAssets::empty(), |acc, x| acc + x.assets.clone());
+        .try_fold(CanonicalAssets::empty(), |acc, x| {
+            acc.checked_add(x.assets.clone())
+        })?;
 
-    let excess = available - target.clone();
+    let excess = available.checked_sub(target.clone())?;
 
     if excess.is_empty_or_negative() {
         return None;
